@@ -1017,6 +1017,10 @@ class Model:
                     alg_state = None
                     other_state = None
 
+                if alg_state is not None and other_state.name() not in all_states:
+                    # Not a model variable (e.g. time): nothing to alias to
+                    return False
+
                 # If both states are algebraic, we need to decide which to eliminate
                 if deps[0].name() in alg_states and deps[1].name() in alg_states:
                     # Most of the time it does not matter which one we eliminate.
